@@ -19,6 +19,7 @@ import (
 	"errors"
 	"io"
 	"net"
+	"strconv"
 	"strings"
 	"sync"
 	"sync/atomic"
@@ -397,6 +398,19 @@ func (u *upstream) updateClients(clients map[string]*client) {
 // because of MOVED or ASK responses, then the response is passed on.
 const maxRedirections = 16
 
+// canonicalAddr returns the unique spelling of a host:port address.
+func canonicalAddr(addr string) (string, bool) {
+	host, port, err := net.SplitHostPort(addr)
+	if err != nil || host == "" {
+		return "", false
+	}
+	n, err := strconv.Atoi(port)
+	if err != nil || n <= 0 || n > 65535 {
+		return "", false
+	}
+	return net.JoinHostPort(host, strconv.Itoa(n)), true
+}
+
 func (u *upstream) handleRedirection(req *simpleRequest, resp *RespValue) {
 	err := strings.Split(string(resp.Text), " ")
 	// the redirection error should be "MOVED|ASK <slot> <host:port>".
@@ -404,8 +418,20 @@ func (u *upstream) handleRedirection(req *simpleRequest, resp *RespValue) {
 		req.SetResponse(newError("ERR invalid redirection from backend"))
 		return
 	}
-	hostAddr := err[2]
 	kind := strings.ToLower(err[0])
+	// The address is the key of the backend clients, it must have one
+	// spelling only ("127.0.0.1:06379" and "127.0.0.1:6379" are the same
+	// node). Otherwise a node could make the proxy open one connection per
+	// spelling, each of them greeted with a READONLY of its own.
+	hostAddr, ok := canonicalAddr(err[2])
+	if !ok {
+		req.SetResponse(newError("ERR invalid redirection from backend"))
+		return
+	}
+	if req.keyless {
+		req.SetResponse(resp)
+		return
+	}
 	switch kind {
 	case MOVED, ASK:
 		// A stale route followed by a migrating slot takes two or three
@@ -574,6 +600,7 @@ func (u *upstream) doSlotsRefresh() error {
 		*newBulkString("nodes"),
 	)
 	req := newSimpleRequest(v)
+	req.keyless = true
 
 	addr, err := u.randomHost()
 	if err != nil {
@@ -729,6 +756,7 @@ func newClient(conn net.Conn, cfg *config, logger log.Logger, options ...clientO
 	// replica nodes, clients must issue READONLY command firstly. Also the READONLY
 	// command is harmless to the master node, more details see: https://redis.io/commands/readonly
 	readOnlyReq := newSimpleRequest(newStringArray("readonly"))
+	readOnlyReq.keyless = true
 	c.Send(readOnlyReq)
 	return c, nil
 }
